@@ -304,7 +304,8 @@ def render_class(c, out, ctor_return_this=False):
         head += "abstract "
     name = c["name"]
     if c.get("tparams"):
-        name += "<" + ", ".join(c["tparams"]) + ">"
+        bounds = c.get("tbounds") or {}
+        name += "<" + ", ".join(tp + (" extends " + bounds[tp] if tp in bounds else "") for tp in c["tparams"]) + ">"
     ext = ""
     if c.get("base"):
         ext = " extends " + c["base"]
@@ -315,7 +316,7 @@ def render_class(c, out, ctor_return_this=False):
         init = "" if f["init"]["k"] == "none" else " = " + rexpr(f["init"])
         out.append("  %s%s %s%s%s %s%s;" % ("@tracked " if f.get("tracked") else "", f.get("vis", "public"), "static " if f["static"] else "",
                                              "final " if f.get("final") else "", rtype(f["t"]), f["n"], init))
-    selft = name
+    selft = c["name"] + ("<" + ", ".join(c["tparams"]) + ">" if c.get("tparams") else "")
     for ct in c["ctors"]:
         if ct.get("default"):
             out.append("  %s constructor(%s) -> %s = default;" % (ct.get("vis", "public"), rparams(ct["params"]), selft))
@@ -421,6 +422,10 @@ class _Mono:
         concrete = [c for c in prog["classes"] if not c.get("tparams")]
         funcs = self.node(prog["funcs"], {})
         classes = [self.node(c, {}) for c in concrete]
+        for c in classes:        # a plain class deriving from a generic instantiation
+            if c.get("base_targs"):
+                c["base"] = self.need(c["base"], [self.ty(a, {}) for a in c["base_targs"]])
+                c["base_targs"] = []
         out_classes = []
         while self.work:
             name, targs, mn = self.work.pop()
